@@ -26,6 +26,7 @@ import (
 // internal/http/server/cors.go), then Origin-bearing requests whose CORS rules are resolved by
 // resolveCORSRulesForRequest -> bucketFromPath -> corscache -> storage.  Case line:
 //   SRV <op> <op> ...   op = C<name> | X<name> | D<name> | P<name>:<rules> | R<path>:<method>:<origin>:<acrm>:<acrh>
+//                       | V<bucket>:<path>:<method>:<origin>:<acrm>:<acrh>  (virtual-hosted: Host = <bucket>.s3.localhost)
 // (see coq/Model/Cors.v, sstep).  Bucket names b0/b1/zz of the line are made unique per case, so that all cases
 // share one server instance while each starts from an empty cache and store.
 
@@ -90,6 +91,10 @@ func c34GenSrvReq(r *Rng) string {
 	if r.Chance(60) {
 		path = r.Pick(c34SrvPaths[:5])
 	}
+	if r.Chance(25) { // virtual-hosted: Host = <bucket>.s3.localhost, the resolver must see the rewritten path
+		return "V" + strings.Join([]string{tokBytes(r.Pick([]string{"b0", "b0", "b1", "zz"})), tokBytes(r.Pick([]string{"/key", "/", "/b1/k", "/b0", "/a/b/"})),
+			tokBytes(method), tokBytes(r.Pick(c34SrvOrigins)), tokBytes(acrm), tokBytes(acrh)}, ":")
+	}
 	return "R" + strings.Join([]string{tokBytes(path), tokBytes(method), tokBytes(r.Pick(c34SrvOrigins)), tokBytes(acrm), tokBytes(acrh)}, ":")
 }
 
@@ -118,8 +123,12 @@ func c34GenSrv(r *Rng) string {
 }
 
 func c34SrvDo(h http.Handler, method, target string, body []byte, hdr map[string]string) *httptest.ResponseRecorder {
-	req := httptest.NewRequest(method, "http://s3.localhost"+target, bytes.NewReader(body))
-	req.Host = "s3.localhost"
+	return c34SrvDoHost(h, "s3.localhost", method, target, body, hdr)
+}
+
+func c34SrvDoHost(h http.Handler, host, method, target string, body []byte, hdr map[string]string) *httptest.ResponseRecorder {
+	req := httptest.NewRequest(method, "http://"+host+target, bytes.NewReader(body))
+	req.Host = host
 	for k, v := range hdr {
 		req.Header[k] = []string{v}
 	}
@@ -194,7 +203,16 @@ func c34RunSrv(in string, scratch string) Result {
 				}
 				outs = append(outs, "ok")
 			}
-		case 'R':
+		case 'R', 'V':
+			host, modelPath := "s3.localhost", untokBytes(f[0])
+			if op[0] == 'V' { // f = bucket, path, ...; the model sees the path-style twin
+				host = real(untokBytes(f[0])) + ".s3.localhost"
+				modelPath = "/" + untokBytes(f[0]) + untokBytes(f[1])
+				if untokBytes(f[1]) == "/" || untokBytes(f[1]) == "" {
+					modelPath = "/" + untokBytes(f[0])
+				}
+				f = f[1:]
+			}
 			path, method, origin, acrm, acrh := real(untokBytes(f[0])), untokBytes(f[1]), untokBytes(f[2]), untokBytes(f[3]), untokBytes(f[4])
 			hdr := map[string]string{}
 			if origin != "" {
@@ -206,7 +224,7 @@ func c34RunSrv(in string, scratch string) Result {
 			if acrh != "" {
 				hdr["Access-Control-Request-Headers"] = acrh
 			}
-			rec := c34SrvDo(env.handler, method, strings.ReplaceAll(path, " ", "%20"), nil, hdr)
+			rec := c34SrvDoHost(env.handler, host, method, strings.ReplaceAll(path, " ", "%20"), nil, hdr)
 			tOrigin := strings.TrimSpace(origin)
 			preflight := method == "OPTIONS" && strings.TrimSpace(acrm) != ""
 			h := rec.Header()
@@ -228,7 +246,7 @@ func c34RunSrv(in string, scratch string) Result {
 			outs = append(outs, strings.Join([]string{outcome, opt("Access-Control-Allow-Origin"), opt("Access-Control-Allow-Methods"),
 				opt("Access-Control-Allow-Headers"), opt("Access-Control-Expose-Headers"), maxAge, tokList(h["Vary"])}, " "))
 			// direct oracle: the addressed bucket's CURRENT configuration decides
-			seg := strings.TrimPrefix(untokBytes(f[0]), "/")
+			seg := strings.TrimPrefix(modelPath, "/")
 			if i := strings.IndexByte(seg, '/'); i >= 0 {
 				seg = seg[:i]
 			}
